@@ -834,6 +834,9 @@ static int conf_replace_value(struct conf_node_base *target_, struct conf_node_b
             source = ENCLOSING_STRUCT(source_, struct conf_node_inaddr, base);
             target->hostname = source->hostname;
             target->service = source->service;
+            /* The strings now belong to target; do not let source free them. */
+            source->hostname = NULL;
+            source->service = NULL;
         } else {
             target->hostname = NULL;
             target->service = NULL;
